@@ -106,6 +106,9 @@ def drive(fi, rec, flavour, expected, nchunks, exc_type, rnd, names=('e', 'a', '
     stubs = {n: make_stub(fi, n, rec['failAt'][n], rec['completeAt'][n], rec['match'][n], st, exc_type)
              for n in names}
     chunks = [bytes(rnd.getrandbits(8) for _ in range(rnd.randint(1, 9))) for _ in range(nchunks)]
+    if flavour == 'iter' and nchunks > 1 and rnd.random() < 0.5:
+        # an iterator may yield an empty chunk anywhere; it is a chunk like any other (only read() ends on b'')
+        chunks[rnd.randrange(nchunks - 1)] = b''
     src = FileSrc(chunks, st) if flavour == 'file' else IterSrc(chunks, st)
     saved = fi.ALL_FORMATS
     try:
@@ -224,6 +227,8 @@ def record_real(fi, data, read_size, flavour, expected, inject, rnd):
     scripts (failAt, completeAt/match of the expected inspector) read off the run."""
     st = State()
     chunks = [data[i:i + read_size] for i in range(0, len(data), read_size)]
+    if flavour == 'iter' and len(chunks) > 1 and rnd.random() < 0.4:
+        chunks.insert(rnd.randrange(1, len(chunks)), b'')      # an empty chunk in the middle of an iterator source
     src = FileSrc(chunks, st) if flavour == 'file' else IterSrc(chunks, st)
     w = fi.InspectWrapper(src, expected_format=expected)
     fail_at = {n: 0 for n in FORMATS}
